@@ -1,5 +1,8 @@
 #!/usr/bin/env python3
-"""vx/seedeval.py <seed dir> [--no-confirm]
+"""vx/seedeval.py <seed dir> [--no-confirm] [--sandbox N]
+--sandbox N: do not touch /repo or /verif: the patch is applied to the scratch worktree /tmp/eval_N/repo (HEAD of /repo)
+and the checks run from a copy of the machinery in /tmp/eval_N/verif with VERIF_REPO pointing there (several
+sandboxes can run side by side; used for regression sweeps over all kept seeds).
 Confirms a seeded change (compiles, 42 tests pass, demonstration fails with / passes without the change) in a scratch
 worktree under /tmp, then applies it to /repo, runs every claimed check, undoes it, and prints a JSON summary.
 Nothing is ever committed to /repo."""
@@ -54,23 +57,34 @@ def main():
             failed = "FAILED" in out2 or "error" in out2
         res["suite_with_change"] = "%d passed%s" % (passed, ", FAILURES" if failed else "")
         sh("git -C /repo worktree remove --force %s" % wt)
-    # ---- run the checks on /repo with the change applied
-    rc, out = sh("git -C /repo status --porcelain")
+    # ---- run the checks with the change applied: on /repo itself, or in a sandbox copy
+    sandbox = None
+    if "--sandbox" in sys.argv:
+        sandbox = "/tmp/eval_" + sys.argv[sys.argv.index("--sandbox") + 1]
+    repo, here = "/repo", HERE
+    if sandbox:
+        repo, here = sandbox + "/repo", sandbox + "/verif"
+        os.makedirs(sandbox, exist_ok=True)
+        if not os.path.isdir(repo):
+            sh("git -C /repo worktree add -q --detach %s HEAD" % repo)
+        sh("git -C %s checkout -q -- . && git -C %s clean -fdq tests src" % (repo, repo))
+        sh("mkdir -p %s && rsync -a --delete --exclude .work --exclude evidence --exclude .git %s/ %s/ && mkdir -p %s/evidence" % (here, HERE, here, here))
+    rc, out = sh("git -C %s status --porcelain" % repo)
     if out.strip():
-        print("refusing: /repo is not clean:\n" + out)
+        print("refusing: %s is not clean:\n" % repo + out)
         sys.exit(2)
-    rc, out = sh("git -C /repo apply %s" % patch)
+    rc, out = sh("git -C %s apply %s" % (repo, patch))
     if rc != 0:
-        print("patch does not apply to /repo: " + out)
+        print("patch does not apply to %s: " % repo + out)
         sys.exit(2)
     verdicts = {}
     try:
         for p in PROPS:
-            rc, out = sh("./check %s --tier quick" % p, cwd=HERE, timeout=900)
+            rc, out = sh("./check %s --tier quick" % p, cwd=here, timeout=900, env=dict(os.environ, VERIF_REPO=repo))
             lines = [l for l in out.splitlines() if l.startswith(("VIOLATION", "UNDECIDED", "KNOWN-FINDING", "failed obligation"))]
             verdicts[p] = {"exit": rc, "lines": lines[:8]}
     finally:
-        sh("git -C /repo checkout -- .")
+        sh("git -C %s checkout -- ." % repo)
     res["checks"] = {p: ("VIOLATION" if v["exit"] == 1 else "UNDECIDED" if v["exit"] == 2 else "ok") for p, v in verdicts.items()}
     res["details"] = {p: v["lines"] for p, v in verdicts.items() if v["exit"] != 0}
     print(json.dumps(res, indent=1))
